@@ -218,6 +218,29 @@ func castleish(rng *hx.Rng) *posgen.Pos {
 				}
 			}
 			ep = string([]byte{byte('a' + f), byte('1' + epSq/8)})
+			// the neighbourhood of the en-passant square: pawns of the side to move on the two adjacent files on
+			// every rank from two behind to one beyond the target (beside the pushed pawn, beside the target
+			// itself, beyond it), and further enemy pawns on the en-passant file (doubled behind / in front):
+			// the encodings IsPseudoLegal must reject here are sideways, double-diagonal and backward "captures"
+			dir := 8
+			if stm == Black {
+				dir = -8
+			}
+			for _, g := range []int{f - 1, f + 1} {
+				if g < 0 || g > 7 {
+					continue
+				}
+				for k := -2; k <= 1; k++ {
+					if rng.Chance(0.3) {
+						put(epSq-f+g+k*dir, pc^32)
+					}
+				}
+			}
+			for k := -3; k <= 1; k++ {
+				if rng.Chance(0.2) {
+					put(epSq+k*dir, pc)
+				}
+			}
 		}
 	}
 	fen := fenC05(sq, stm, castles, ep, 1+rng.Intn(60))
